@@ -1,4 +1,4 @@
-import PtnModel.Proofs.EnvDense
+import PtnModel.Proofs.EnvTwo
 /-!
 # C04 — inner products, expectation values and environment blocks equal the dense quantities
 
@@ -16,6 +16,12 @@ arithmetic: "up to rounding" is the passage from `R` to floating point and is no
 Dense meaning (digit-indexed, no flat indices).  `Env.digitsU d L` is the finite set of digit lists
 `s : List ℕ` of length `L` with all entries `< d`.  The dense vector of an MPS `ψ` is `s ↦ ψ.amp s`
 (`MPS.amp`, `Model/MPS.lean`), the dense matrix of an MPO `o` is `(s, t) ↦ o.elem s t` (`MPO.elem`).
+
+Theorems (each total: the model call returns `.ok`, i.e. the Python raises no exception):
+(a) `vdot_dense`, `norm_sq_dense`; (b) `inner_dense`, `average_dense`; (c) `density_dense`;
+(d) `right_blocks_dense`, `left_block_zero_dense`, `left_step_dense`, `right_block_zero_average`;
+(e) `local_projection` (one-site), `bond_projection` (zero-site), `two_site_projection`, `merge_dense`
+(`merge_dense_mps`, `merge_dense_mpo`); (f) `local_hermitian`, `bond_hermitian`, `two_site_hermitian`.
 
 Shapes: `MPS.Shaped ψ d` — at least one site, every tensor has physical dimension `d`, neighbouring bond
 dimensions agree, outer bond dimensions are `1`; `MPO.Shaped o d` likewise.  Bond profiles of different
@@ -55,6 +61,12 @@ theorem vdot_dense {χ ψ : MPS R} {d : Nat} (hχ : MPS.Shaped χ d) (hψ : MPS.
   have := congrArg List.length h
   simp only [List.length_replicate, List.length_nil] at this
   exact hψ.1 (List.length_eq_zero_iff.1 this)
+
+/-- `norm(psi) = sqrt(vdot(psi, psi).real)`: the radicand is the dense squared norm `Σ_s conj(ψ[s]) ψ[s]`
+(the floating-point `sqrt` and `.real` are outside the model). -/
+theorem norm_sq_dense {ψ : MPS R} {d : Nat} (hψ : MPS.Shaped ψ d) :
+    Op.vdot ψ ψ = .ok (∑ s ∈ digitsU d ψ.A.length, star (ψ.amp s) * ψ.amp s) :=
+  vdot_dense hψ hψ rfl
 
 /-! ### non-vacuity -/
 
@@ -184,6 +196,14 @@ theorem left_step_dense {ψ : MPS R} {o : MPO R} {d : Nat} (hψ : MPS.Shaped ψ 
     ∃ T, Op.opStepLeft A A W E = .ok T ∧ IsLeftBlock ψ o d (i + 1) T :=
   left_step_core hψ.2 (hL ▸ ho.2) hi hA hW hE
 
+/-- consistency of the block vocabulary with (b): the partial contraction of *all* sites is the expectation value. -/
+theorem right_block_zero_average {ψ : MPS R} {o : MPO R} {d : Nat} {E : T3 R} (hE : IsRightBlock ψ o d 0 E) :
+    E.f 0 0 0 = ∑ s ∈ digitsU d ψ.A.length, ∑ t ∈ digitsU d ψ.A.length, star (ψ.amp s) * o.elem s t * ψ.amp t := by
+  rw [hE.2.2.2 0 0 0 (by simp [mpsBond]) (by simp [mpoBond]) (by simp [mpsBond])]
+  refine Finset.sum_congr rfl fun s _ => Finset.sum_congr rfl fun t _ => ?_
+  simp only [ampSuffix, elemSuffix, List.drop_zero, MPS.amp, MPO.elem]
+  ring
+
 /-! ## (e) the effective local operators are projections of the full operator -/
 
 /-- One-site map.  `Lb`, `Rb` are the partial contractions left and right of site `i`, `W = op.A[i]`, and `A`, `B`
@@ -254,6 +274,70 @@ theorem bond_hermitian {ψ : MPS R} {o : MPO R} {d : Nat} (hψ : MPS.Shaped ψ d
   rw [e, e']
   exact herm_sum _ _ _ _ (by rw [hL]; exact hH)
 
+/-! ## two-site local operator (`merge_mps_tensor_pair`, `merge_mpo_tensor_pair`)
+
+`ampTwo ψ d i A2 s` (`Proofs/EnvTwo.lean`) is the dense vector of `ψ` with the tensors of the sites `i, i+1`
+replaced by the two-site tensor `A2` of shape `(d·d, D_i, D_{i+2})`, physical pair index `s_i · d + s_{i+1}`;
+`elemTwo o d i W2 s t` the same for an MPO. -/
+
+/-- merging two neighbouring MPS tensors preserves the amplitudes -/
+theorem merge_dense_mps {ψ : MPS R} {d : Nat} (hψ : MPS.Shaped ψ d) {i : Nat} (hi : i + 1 < ψ.A.length)
+    {A0 A1 : T3 R} (hA0 : ψ.A[i]? = some A0) (hA1 : ψ.A[i + 1]? = some A1) {s : List Nat}
+    (hs : s ∈ digitsU d ψ.A.length) :
+    ampTwo ψ d i (MPS.mergePair A0 A1) s = ψ.amp s :=
+  ampTwo_merge hψ.2 hi hA0 hA1 hs
+
+/-- merging two neighbouring MPO tensors preserves the matrix elements -/
+theorem merge_dense_mpo {o : MPO R} {d : Nat} (ho : MPO.Shaped o d) {i : Nat} (hi : i + 1 < o.A.length)
+    {W0 W1 : T4 R} (hW0 : o.A[i]? = some W0) (hW1 : o.A[i + 1]? = some W1) {s t : List Nat}
+    (hs : s ∈ digitsU d o.A.length) (ht : t ∈ digitsU d o.A.length) :
+    elemTwo o d i (MPO.mergePair W0 W1) s t = o.elem s t :=
+  elemTwo_merge_len ho.2 hi hW0 hW1 hs ht
+
+/-- `merge_dense`: merging two neighbouring tensors preserves `amp` / `elem`. -/
+theorem merge_dense {ψ : MPS R} {o : MPO R} {d : Nat} (hψ : MPS.Shaped ψ d) (ho : MPO.Shaped o d)
+    (hL : ψ.A.length = o.A.length) {i : Nat} (hi : i + 1 < ψ.A.length) {A0 A1 : T3 R} {W0 W1 : T4 R}
+    (hA0 : ψ.A[i]? = some A0) (hA1 : ψ.A[i + 1]? = some A1) (hW0 : o.A[i]? = some W0) (hW1 : o.A[i + 1]? = some W1)
+    {s t : List Nat} (hs : s ∈ digitsU d ψ.A.length) (ht : t ∈ digitsU d ψ.A.length) :
+    ampTwo ψ d i (MPS.mergePair A0 A1) s = ψ.amp s ∧ elemTwo o d i (MPO.mergePair W0 W1) s t = o.elem s t :=
+  ⟨merge_dense_mps hψ hi hA0 hA1 hs, merge_dense_mpo ho (hL ▸ hi) hW0 hW1 (hL ▸ hs) (hL ▸ ht)⟩
+
+/-- Two-site map.  `Lb`, `Rb` are the partial contractions of the sites `0 … i-1` and `i+2 … L-1`,
+`W2 = merge_mpo_tensor_pair(op.A[i], op.A[i+1])`, and `A2`, `B2` are arbitrary two-site tensors of shape
+`(d·d, D_i, D_{i+2})`.  Then `apply_local_hamiltonian(Lb, Rb, W2, A2)` raises no exception and `⟨B2, H_eff A2⟩`
+equals the matrix element of the dense operator between the full states obtained from `psi` by replacing the
+tensors of the sites `i, i+1` by `B2` resp. `A2`. -/
+theorem two_site_projection {ψ : MPS R} {o : MPO R} {d : Nat} (hψ : MPS.Shaped ψ d) (ho : MPO.Shaped o d)
+    (hL : ψ.A.length = o.A.length) {i : Nat} (hi : i + 1 < ψ.A.length) {W0 W1 : T4 R}
+    (hW0 : o.A[i]? = some W0) (hW1 : o.A[i + 1]? = some W1) {A2 B2 : T3 R}
+    (hA0 : A2.d0 = d * d) (hA1 : A2.d1 = mpsBond ψ i) (hA2 : A2.d2 = mpsBond ψ (i + 2))
+    (hB0 : B2.d0 = d * d) (hB1 : B2.d1 = mpsBond ψ i) (hB2 : B2.d2 = mpsBond ψ (i + 2))
+    {Lb Rb : T3 R} (hLb : IsLeftBlock ψ o d i Lb) (hRb : IsRightBlock ψ o d (i + 2) Rb) :
+    ∃ T, Op.applyLocalHamiltonian Lb Rb (MPO.mergePair W0 W1) A2 = .ok T ∧ T.d0 = d * d ∧
+      T.d1 = mpsBond ψ i ∧ T.d2 = mpsBond ψ (i + 2) ∧
+      ∑ s ∈ range (d * d), ∑ a ∈ range (mpsBond ψ i), ∑ b ∈ range (mpsBond ψ (i + 2)), star (B2.f s a b) * T.f s a b
+      = ∑ s ∈ digitsU d ψ.A.length, ∑ t ∈ digitsU d ψ.A.length,
+          star (ampTwo ψ d i B2 s) * o.elem s t * ampTwo ψ d i A2 t :=
+  two_site_core hψ.2 (hL ▸ ho.2) hi hW0 hW1 hA0 hA1 hA2 hB0 hB1 hB2 hLb hRb
+
+/-- If the dense operator is Hermitian, so is the two-site effective Hamiltonian. -/
+theorem two_site_hermitian {ψ : MPS R} {o : MPO R} {d : Nat} (hψ : MPS.Shaped ψ d) (ho : MPO.Shaped o d)
+    (hL : ψ.A.length = o.A.length) (hH : MPO.DenseHermitian o d) {i : Nat} (hi : i + 1 < ψ.A.length)
+    {W0 W1 : T4 R} (hW0 : o.A[i]? = some W0) (hW1 : o.A[i + 1]? = some W1) {A2 B2 : T3 R}
+    (hA0 : A2.d0 = d * d) (hA1 : A2.d1 = mpsBond ψ i) (hA2 : A2.d2 = mpsBond ψ (i + 2))
+    (hB0 : B2.d0 = d * d) (hB1 : B2.d1 = mpsBond ψ i) (hB2 : B2.d2 = mpsBond ψ (i + 2))
+    {Lb Rb : T3 R} (hLb : IsLeftBlock ψ o d i Lb) (hRb : IsRightBlock ψ o d (i + 2) Rb) :
+    ∃ TA TB, Op.applyLocalHamiltonian Lb Rb (MPO.mergePair W0 W1) A2 = .ok TA ∧
+      Op.applyLocalHamiltonian Lb Rb (MPO.mergePair W0 W1) B2 = .ok TB ∧
+      ∑ s ∈ range (d * d), ∑ a ∈ range (mpsBond ψ i), ∑ b ∈ range (mpsBond ψ (i + 2)), star (B2.f s a b) * TA.f s a b
+      = star (∑ s ∈ range (d * d), ∑ a ∈ range (mpsBond ψ i), ∑ b ∈ range (mpsBond ψ (i + 2)),
+          star (A2.f s a b) * TB.f s a b) := by
+  obtain ⟨TA, hTA, _, _, _, eA⟩ := two_site_projection hψ ho hL hi hW0 hW1 hA0 hA1 hA2 hB0 hB1 hB2 hLb hRb
+  obtain ⟨TB, hTB, _, _, _, eB⟩ := two_site_projection hψ ho hL hi hW0 hW1 hB0 hB1 hB2 hA0 hA1 hA2 hLb hRb
+  refine ⟨TA, TB, hTA, hTB, ?_⟩
+  rw [eA, eB]
+  exact herm_sum _ _ _ _ (by rw [hL]; exact hH)
+
 /-! ### non-vacuity of (d), (e), (f) on `χ₀` (bond dimension 2) and `o₀` (bond dimension 2) -/
 
 example : ∃ BR, Op.rightBlocks χ₀ o₀ = .ok BR ∧ BR.length = 2 := by
@@ -281,5 +365,15 @@ example : ∃ (Lb Rb : T3 ℤ) (C : Mat ℤ), C.m = mpsBond χ₀ 1 ∧ C.n = mp
 example : MPO.DenseHermitian o₀ 2 := by
   unfold MPO.DenseHermitian
   decide
+
+/-- data satisfying all hypotheses of `merge_dense_*`, `two_site_projection`, `two_site_hermitian` at `i = 0` -/
+example : ∃ (Lb Rb : T3 ℤ) (W0 W1 : T4 ℤ) (A0 A1 : T3 ℤ), χ₀.A[0]? = some A0 ∧ χ₀.A[1]? = some A1 ∧
+    o₀.A[0]? = some W0 ∧ o₀.A[1]? = some W1 ∧ (MPS.mergePair A0 A1).d0 = 2 * 2 ∧
+    (MPS.mergePair A0 A1).d1 = mpsBond χ₀ 0 ∧ (MPS.mergePair A0 A1).d2 = mpsBond χ₀ 2 ∧
+    IsLeftBlock χ₀ o₀ 2 0 Lb ∧ IsRightBlock χ₀ o₀ 2 2 Rb := by
+  obtain ⟨BR, _, _, h⟩ := right_blocks_dense (ψ := χ₀) (o := o₀) (d := 2) (by decide) (by decide) rfl
+  obtain ⟨E, _, hE⟩ := h 1 (by decide)
+  exact ⟨MPS.ones111, E, _, _, _, _, rfl, rfl, rfl, rfl, rfl, rfl, rfl,
+    left_block_zero_dense (ψ := χ₀) (o := o₀) (d := 2) (by decide) (by decide) rfl, hE⟩
 
 end Ptn.C04
